@@ -1,0 +1,6 @@
+//go:build !verif
+
+package pubsub
+
+// verifPoint is a no-op schedule point; see verif_hook_on.go.
+func verifPoint(string) {}
